@@ -401,7 +401,7 @@ class Ctx:
         m = re.search(r"Error: Postcondition (\S+)", res.out)
         if m and not res.violated:
             res.violated = m.group(1)
-        m2 = re.search(r"Error: Action property (\S+) is violated", res.out) or re.search(r"Error: Temporal properties were violated", res.out)
+        m2 = re.search(r"Error: Action property (\S+) is violated", res.out) or re.search(r"Error: Temporal propert(?:y|ies)[^\n]*violated", res.out)
         if m2 and not res.violated:
             res.violated = m2.group(1) if m2.groups() else "temporal"
         res.ok = "Model checking completed. No error has been found." in res.out
@@ -528,6 +528,17 @@ class Ctx:
             "coverage": cov, "assumptions": (assumptions or []) + self.assumptions,
             "wall_s": round(time.time() - self.t0, 2), "violations": len(self.violations),
         }
+        replay_sig = getattr(self, "replay_sig", None)
+        if replay_sig is not None:
+            # replay of a recorded violation: the whole check is re-run at the recorded seed and tier; the verdict is about that signature only
+            again = [v for v in self.violations if v["sig"] == replay_sig]
+            for v in again:
+                print("VIOLATION property=%s replay=%s" % (self.pid, v["replay"]))
+                print("  what: [%s] %s (x%d)" % (v["sig"], v["what"][:1000], v["count"]))
+            if not again:
+                print("replay: no violation with signature [%s] on this tree" % replay_sig)
+            sys.stdout.flush()
+            return 1 if again else 0
         os.makedirs(EVIDENCE, exist_ok=True)
         with open(os.path.join(EVIDENCE, "%s.json" % self.pid), "w") as f:
             json.dump(ev, f, indent=1, default=str)
